@@ -61,17 +61,17 @@ CHECKS = {
             "Proved: an empty diagram yields a zero image of the configured resolution; a single diagram and each element of a collection are mapped by _transform with exactly the imager's parameters, in order, serially or through Parallel/delayed with any n_jobs and either skew; transform leaves the fitted state untouched; the pixel formula is a sum over points (C04), from which additivity, order freedom and zero-weight neutrality follow by Sigma meta-rules. Laws are additionally sampled with real workers.",
             "D17 joblib order; Sigma-split / commutativity meta-rules; C13 for non-negativity; generator, models, contracts trusted"),
     "C03": ("other",
-            "bounded-symbolic execution (engine E2): the real PersLandscapeExact.compute_landscape is run by CPython on proxy reals for every feasible path with <=3 bars in any order (4 in sweep order, thorough), each path's critical pairs compared with the k-th-largest-tent spec for all t and all depths by z3 (QF_LRA); run-time lattice/random comparison and exact power-of-two scale covariance",
-            "BOUNDED, not proved: complete for the stated sizes (all real end-points, all t, all k) and sampled beyond. No loop invariant for the Bubenik-Dlotko sweep is within reach of the VC generator (k-th largest over a positionally mutated bag), so no contract-level proof is claimed. The known repeated-bar shortcut defect is attributed by a line trace located through the AST.",
+            "contracts on the real PersLandscapeExact.__init__ (VCs from the AST: the diagram of the requested degree is selected, whatever the other degrees hold; compute iff requested; both-empty rejected) + bounded-symbolic execution (engine E2): the real PersLandscapeExact.compute_landscape is run by CPython on proxy reals for every feasible path with <=3 bars in any order (4 in sweep order, thorough), each path's critical pairs compared with the k-th-largest-tent spec for all t and all depths by z3 (QF_LRA); run-time lattice/random comparison and exact power-of-two scale covariance",
+            "BOUNDED, not proved: complete for the stated sizes (all real end-points, all t, all k) and sampled beyond. No loop invariant for the Bubenik-Dlotko sweep is within reach of the VC generator (k-th largest over a positionally mutated bag), so no contract-level proof is claimed. Proved for all inputs only: the constructor uses dgms[hom_deg]. The known repeated-bar shortcut defect is attributed by a trace that requires every execution of the shortcut to be matched by a bar genuinely repeated in the work list.",
             "CPython + pysym proxies; z3; sizes bounded (3 bars exhaustive); slopes of landscape functions in {-1,0,1} used to keep queries linear"),
     "C08": ("other",
             "contracts on death_vector and PersistenceLandscaper.transform (VCs from the AST, modular constructor) + bounded-symbolic execution (E2) of the real PersLandscapeApprox.compute_landscape on proxy reals for <=2 bars x <=6 nodes with the half-step bound checked per path by z3; run-time grids up to 50 nodes",
             "Mixed: proved for all inputs - death vector = deaths sorted non-increasingly with multiplicity (sorted() as contract D12), rejection of hom_deg != 0, the transformer returns exactly the values (flattened on request) of the approximate landscape built from its grid parameters and leaves its state untouched. Bounded - the half-step bound and exactness on grid end-points.",
             "D12 sorted, D13 interp, D14 linspace; L10 (snapping <= step/2, k-th largest 1-Lipschitz) paper argument; E2 bounds; known finding: 'empty' sentinel"),
     "C09": ("other",
-            "contracts on the real grid-landscape operators (+, -, unary -, scalar *, /, union_vals) and the map-style exact operators with frame obligations (no store into an operand's buffer), VCs from the AST; bounded-symbolic execution (E2) of the real slope-merge chain of exact addition for <=3+3 breakpoints; run-time operator sequences on shared operands",
-            "Mixed: proved for all sizes - grid arithmetic is pointwise with zero padding of the shallower operand, keeps the grid, rejects mismatched grids/degrees/non-numbers/zero divisors, never writes into an operand; exact negation / scaling / division map over depths and pairs. Bounded - exact addition (merge of slope lists) for <=3+3 (4+4 thorough) breakpoints incl. coincident abscissae; snap / linear combination / average sampled.",
-            "D15 np.pad, D16 object-array dispatch, wf precondition on critical pairs; E2 bounds; generator, models, contracts trusted"),
+            "contracts on the real grid-landscape operators (+, -, unary -, scalar *, /, union_vals), the map-style exact operators, and snap_pl / lc_approx / average_approx (loop invariant over every depth through the real __getitem__, np.interp and the operators through their contracts, every grid argument given-or-derived) with frame obligations (no store into an operand's buffer, operands' fields untouched), VCs from the AST; bounded-symbolic execution (E2) of the real slope-merge chain of exact addition for <=3+3 breakpoints; run-time operator sequences on shared operands",
+            "Mixed: proved for all sizes - grid arithmetic is pointwise with zero padding of the shallower operand, keeps the grid, rejects mismatched grids/degrees/non-numbers/zero divisors, never writes into an operand; exact negation / scaling / division map over depths and pairs; snap_pl re-samples every depth of every input from its own grid onto the requested-else-derived common grid (explicit zeros honoured), lc_approx is the same combination of the re-sampled values with missing depths as zero, average_approx uses coefficients 1/m. Bounded - exact addition (merge of slope lists) for <=3+3 (4+4 thorough) breakpoints incl. coincident abscissae; snap / linear combination / average sampled.",
+            "D15 np.pad, D16 object-array dispatch, D25 legacy iteration protocol, D26 np.interp (assumed contract: a function of its arguments, passing through the data), wf precondition on critical pairs; E2 bounds; generator, models, contracts trusted"),
     "C18": ("other",
             "per-method state contracts on the real PersistenceLandscaper.fit (ghost user-fixed flags, five pre-states) / transform, a relational script contract for PersistenceImager.fit (two pre-states, same data => same post-state), fit_transform vs fit;transform as a script contract, imager.transform element-wise mapping; run-time random call sequences against fresh transformers",
             "Mixed with a known finding: proved - imager fits forget the past, fit_transform equals fit then transform in state and images, transforms leave the fitted state untouched and map collections in order, landscaper fit honours user-fixed ends and learns min birth / max death on a fresh transformer. Refuted on the unchanged tree (KNOWN-FINDING): a second landscaper fit keeps the first fit's grid. Call sequences are sampled.",
@@ -81,9 +81,9 @@ CHECKS = {
             "Mixed: proved for all diagrams and all certificate-shaped matchings - exactly one ax.plot per row involving a point, in order, joining the two points or the point and its perpendicular foot ((b+d)/2,(b+d)/2) (NRA with h^2=1/2), the arg-max bottleneck row in the emphasised style, nothing drawn through pyplot's current axes, plot_diagrams invoked once on the same axes. plot_diagrams itself (scatter offsets, limits, infinity line, labels, legend) and the landscape plots are checked on real canvases only (bounded).",
             "D22 matplotlib call -> artist; matching rows integer-valued and in range (C06); arithmetic definedness assumed; generator, models, contracts trusted"),
     "C05": ("other",
-            "contracts on the real construct_mapping (loop invariant: the running distortion bounds every mapped pair, for any RNG draw), find_ub_of_min_distortion (while-loop over a generator of random permutations, for every sampling order), find_ub, find_lb (loop invariant double_lb <= 2 mGH with the confirmation step as assumed contract) and estimate; ghost constants inf-dis / 2 mGH; exhaustive small-graph stand-in vs exact mGH",
+            "contracts on the real construct_mapping (loop invariant: the running distortion bounds every mapped pair, for any RNG draw), find_ub_of_min_distortion (while-loop over a generator of random permutations, for every sampling order), find_ub, find_lb (loop invariant double_lb <= 2 mGH with the confirmation step as assumed contract), confirm_lb_using_bounded_curvature (Theorem A or the row test on the same arguments), confirm_lb_using_bounded_curvature_row (nested while-loop invariants: confirmed iff some maximal row of K is infeasible against EVERY row of DY - the hypothesis of Theorem B), check_assignment_feasibility (frame: never writes into its arguments) and estimate; ghost constants inf-dis / 2 mGH; exhaustive small-graph stand-in vs exact mGH",
             "Mixed: proved for all graph sizes, labelings, RNG states and sampling orders - the upper estimate is the distortion bound of total maps in both directions, hence >= mGH; estimates are non-negative multiples of 1/2; the lower estimate never exceeds mGH *given* L13 and the assumed soundness of the curvature confirmation (Theorems A/B + the greedy assignment test), which is checked only by the bounded stand-in (all pairs of graphs on <=4 vertices, relabelings up to 7 vertices, brute-force feasibility).",
-            "L12-L14 paper lemmas; confirm_lb_using_bounded_curvature / check_assignment_feasibility / find_largest_size_bounded_curvature under assumed contracts; D11 RNG ranges; generator, models, contracts trusted"),
+            "L12-L14 paper lemmas (Theorems A/B assumed); the value of check_assignment_feasibility, represent_distance_matrix_rows_as_distributions, find_unique_max_distributions, find_largest_size_bounded_curvature under assumed contracts (bounded stand-in vs brute force / branch-and-bound up to 8 vertices, integer-type boundary sizes 126..258); D11 RNG ranges; generator, models, contracts trusted"),
     "C17": ("other",
             "contracts on the real determine_optimal_int_type, make_distance_matrix_from_adjacency_matrix (connected and disconnected branch, SciPy's shortest_path / connected_components / unique as dependency contracts) and gromov_hausdorff (pair, collection, rejection); a call-graph obligation (find_lb reaches no RNG call); run-time sweep over containers, sparsity, symmetry, relabelings, collections and disconnected graphs",
             "Mixed: proved - the disconnected branch warns and returns the square, finite restriction of the distance matrix to a largest component on both axes and never raises; the integer type holds the maximum; pair / collection dispatch, N < 2 rejected, symmetric zero-diagonal matrices whose entries are the pairwise estimates; lower bounds are RNG-free. Format coercion (list / dense / CSR, triu / symmetric) is SciPy's: bounded sweep.",
